@@ -1,7 +1,7 @@
 #!/bin/bash
 # run every claimed check (quick by default) a few at a time; summary at the end
 tier=${1:-quick}; par=${2:-4}
-cd /verif
+cd "$(dirname "$(readlink -f "$0")")/.."
 ids=$(python3 -c "import json; print(' '.join(c['property_id'] for c in json.load(open('MANIFEST.json'))['checks']))")
 mkdir -p build/runall
 echo $ids | tr ' ' '\n' | xargs -P $par -I{} sh -c "./check {} --tier $tier > build/runall/{}.log 2>&1; echo {} exit=\$? \$(tail -1 build/runall/{}.log | cut -c1-150)"
